@@ -51,6 +51,7 @@ func svSharded(t *testing.T, testName string, n int, dead func(idx int, wedged b
 		go func(i int) {
 			defer wg.Done()
 			from := *flagFrom
+			deadN := 0
 			for {
 				rc, out := run(i, outs[i], "-from", fmt.Sprint(from))
 				if rc == 0 {
@@ -65,14 +66,18 @@ func svSharded(t *testing.T, testName string, n int, dead func(idx int, wedged b
 					errs[i] = fmt.Errorf("shard %d: exit %d outside a scenario: %s", i, rc, svTail(string(out), 1500))
 					return
 				}
-				// again, alone (a loaded machine can make the real-time watchdog misfire)
-				solo.Lock()
-				retry := outs[i] + ".retry"
-				os.Remove(retry)
-				rc2, out2 := run(i, retry, "-only", fmt.Sprint(idx))
-				b, _ := os.ReadFile(retry)
-				os.Remove(retry)
-				solo.Unlock()
+				// a wedge is tried again, alone (a loaded machine can make the real-time watchdog misfire); a process
+				// death is taken as it is
+				rc2, out2, b := rc, out, []byte(nil)
+				if rc == 3 {
+					solo.Lock()
+					retry := outs[i] + ".retry"
+					os.Remove(retry)
+					rc2, out2 = run(i, retry, "-only", fmt.Sprint(idx))
+					b, _ = os.ReadFile(retry)
+					os.Remove(retry)
+					solo.Unlock()
+				}
 				f, e := os.OpenFile(outs[i], os.O_WRONLY|os.O_APPEND, 0o644)
 				if e != nil {
 					errs[i] = e
@@ -93,6 +98,12 @@ func svSharded(t *testing.T, testName string, n int, dead func(idx int, wedged b
 				}
 				f.Close()
 				from = idx + 1
+				if rc2 != 0 {
+					if deadN++; deadN >= 20 {
+						// enough failing cases from this shard: its remaining scenarios are not run
+						return
+					}
+				}
 			}
 		}(i)
 	}
